@@ -7,7 +7,7 @@ Driver commands of area `life` (C08).  One request line is one whole history:
   (pdoTop / pdoSub / spcall: the default_options dicts of project('top'), project('sub'), subproject('sub'))
 
 defs  `name=spec,name=spec` (spec as in Driver/Options.lean: `kind/default/y/r`)
-cmd   `su;<dict>`  `rc;<dict>`  `cf;<optdict>`  `wi;<dict>`  `es;<0|1>;<name>;<spec>`  `er;<0|1>;<name>`  `co` (truncate coredata.dat)
+cmd   `su;<dict>`  `rc;<dict>`  `cf;<optdict>`  `wi;<dict>`  `es;<0|1>;<name>;<spec>`  `er;<0|1>;<name>`  `co` (truncate coredata.dat)  `fs;<0|1>;<-|0|1>` (option file: deleted / meson.options / meson_options.txt)
       (dict / optdict / keys / values as in Driver/Options.lean)
 
 observation  `<out>#<core>#<cmdline>#<intro>`
@@ -54,6 +54,7 @@ def parseCmd (f : String) : Option Cmd :=
   | ["es", p, n, sp] => some (.editSet (p == "1") (decodeStr n) (parseSpec sp))
   | ["er", p, n] => some (.editRemove (p == "1") (decodeStr n))
   | ["co"] => some .corrupt
+  | ["fs", p, f] => some (.fileSet (p == "1") (if f == "-" then none else some (f == "1")))
   | _ => none
 
 def join (l : List String) : String := ",".intercalate (sortStrs l)
